@@ -416,10 +416,20 @@ pub mod sess {
         // with DIFFERENT content (a merged value was stored under the newer input's change id, so the
         // supplier's range filter never sends it on). Everything else is a fresh violation and is logged first.
         let mut stranded: Option<String> = None;
+        let mut stale: Option<String> = None;
+        let own_uuids = super::rh::server_uuids(&cl).await;
         for (a, which) in ["login", "oauth2"].iter().enumerate() {
             let content = |i: usize| if a == 0 { &finals[i].0 } else { &finals[i].1 };
             let want = if a == 0 { &seen.0 } else { &seen.1 };
             let same_cid_diff_content = (0..n).any(|i| (0..n).any(|j| i != j && cids[i][a] == cids[j][a] && content(i) != content(j)));
+            // Second known root cause (found by C08, listed for C11 too): a replica whose clock lags stamps
+            // its own write LOWER than a change id it had already received. After a full mesh a replica can
+            // only still hold its own lower id if that happened (the greater id is never re-sent to it).
+            let stale_local = (0..n).any(|i| {
+                let Some(ci) = &cids[i][a] else { return false };
+                let own = ci.split_once('-').map(|(_, u)| u == own_uuids[i]).unwrap_or(false);
+                own && (0..n).any(|j| j != i && cids[j][a].as_ref().map(|cj| cj.split_once('-').map(|x| x.0) > ci.split_once('-').map(|x| x.0)).unwrap_or(false))
+            });
             for i in 0..n {
                 for (k, w) in want {
                     let g = content(i).get(k);
@@ -429,6 +439,8 @@ pub mod sess {
                     let msg = format!("replica {i} {which} session {k}: has {g:?}, join of everything written is {w:?}; attribute change ids per replica {:?}", cids.iter().map(|c| c[a].clone()).collect::<Vec<_>>());
                     if same_cid_diff_content {
                         stranded.get_or_insert(msg);
+                    } else if stale_local {
+                        stale.get_or_insert(msg);
                     } else if matches!(w, SessionState::RevokedAt(_)) && !matches!(g, Some(SessionState::RevokedAt(_))) {
                         log.fail(SIG_E2E_LOST, msg);
                     } else {
@@ -439,6 +451,8 @@ pub mod sess {
                     let msg = format!("{which}: replica 0 {:?} @ {:?} / replica {i} {:?} @ {:?}", content(0), cids[0][a], content(i), cids[i][a]);
                     if same_cid_diff_content {
                         stranded.get_or_insert(msg);
+                    } else if stale_local {
+                        stale.get_or_insert(msg);
                     } else {
                         log.fail(SIG_E2E_DIVERGE, msg);
                     }
@@ -448,6 +462,10 @@ pub mod sess {
         if let Some(msg) = stranded {
             log.class("e2e:known-stranded-merge");
             log.fail(SIG_STRANDED, msg);
+        }
+        if let Some(msg) = stale {
+            log.class("e2e:known-stale-local-write");
+            log.fail(super::rh::SIG_STALE_LOCAL, msg);
         }
         log.class(format!("e2e:replicas-{n}"));
         if any_rev {
